@@ -7,7 +7,7 @@
    [e_now e] is the BLOCK time: the model has no other clock (after /repo commit 295ed89 neither has the code;
    the harness runs the code at block times from 1995 to 2100 and never reads the wall clock). *)
 From Coq Require Import ZArith List Bool Lia.
-From Evm Require Import Destroy DestroyProofs.
+From Evm Require Import Destroy DestroyProofs DestroyX DestroyXProofs.
 Import ListNotations.
 Open Scope Z_scope.
 
@@ -128,6 +128,161 @@ Theorem C15_commit_independent_of_touched_order : forall e w sd t1 t2,
 Proof. exact commit_order_independent. Qed.
 Print Assumptions C15_commit_independent_of_touched_order.
 
+(* ================================================================================================================
+   Transactions in which OTHER MODULES write between the StateDB's operations.  [run_xtx e w l]: [l] is any interleaving
+   of StateDB operations ([XOp]) and of bank / auth writes made on the StateDB's current context behind its back -
+   ERC-20 precompile transfer / transferFrom ([XSend]), burn ([XBurn]), staking precompile delegate ([XDelegate]) - in any
+   nesting of snapshots and reverts; then CommitMultiStore, which decides on the world AS IT IS THEN.
+   (Model/DestroyX.v; the driver records these writes from the precompiles' logs and makes some itself.) *)
+
+(* ---- 1x. protected accounts survive with their type, schedule and account number (a staking delegation may move
+         coins of a vesting account into its delegated-vesting counter: [kind_sim] ignores that counter only) *)
+Theorem C15_x_protected_survive : forall e w l w' burns,
+  run_xtx e w l = TxOk w' burns ->
+  forall a ac, w_acc w a = Some ac -> protected_kind (a_kind ac) (e_now e) = true ->
+  exists ac', w_acc w' a = Some ac' /\ kind_sim (a_kind ac) (a_kind ac') /\ a_num ac' = a_num ac.
+Proof. exact xprotected_survive. Qed.
+Print Assumptions C15_x_protected_survive.
+
+(* ---- 2x. an account that exists before a successful transaction and not after it was self-destructed, or EMPTY IN THE
+         WORLD THE COMMIT STARTED FROM: [s] is the state after the last operation of [l], foreign writes included *)
+Theorem C15_x_no_nonempty_deleted : forall e w l w' burns a,
+  Forall xnot_raw_destroy l ->
+  run_xtx e w l = TxOk w' burns -> w_acc w a <> None -> ~ (w_acc w' a <> None) ->
+  exists s, run_xops e (init_sdb w) l = Ok s /\
+            (mem a (f_sd (cur s)) = true \/ is_empty (f_w (cur s)) a = true).
+Proof. exact xno_nonempty_deleted. Qed.
+Print Assumptions C15_x_no_nonempty_deleted.
+
+(* the commit, address by address: deleted completely iff touched and (self-destructed or empty at commit time);
+   exactly as it was otherwise - account record, every balance, code, storage *)
+Theorem C15_commit_exact : forall e f w' burns a,
+  commit e f = Ok (w', burns) ->
+  (In a (f_touched f) /\ (mem a (f_sd f) = true \/ is_empty (f_w f) a = true) /\
+   w_acc w' a = None /\ (forall d, amt (w_bal w' a) d = 0) /\ w_code w' a = 0 /\ w_stor w' a = []) \/
+  (~ (In a (f_touched f) /\ (mem a (f_sd f) = true \/ is_empty (f_w f) a = true)) /\
+   w_acc w' a = w_acc (f_w f) a /\ w_bal w' a = w_bal (f_w f) a /\ w_code w' a = w_code (f_w f) a /\
+   w_stor w' a = w_stor (f_w f) a).
+Proof. exact commit_exact. Qed.
+Print Assumptions C15_commit_exact.
+
+(* what the memoized-emptiness defect broke: whenever and however often an address was touched or asked about, if
+   it is not empty when the commit starts (say because a precompile paid it since) and did not self-destruct, it keeps
+   everything *)
+Theorem C15_x_touched_nonempty_survives : forall e w l s w' burns a,
+  run_xops e (init_sdb w) l = Ok s -> run_xtx e w l = TxOk w' burns ->
+  mem a (f_sd (cur s)) = false -> is_empty (f_w (cur s)) a = false ->
+  w_acc w' a = w_acc (f_w (cur s)) a /\ w_bal w' a = w_bal (f_w (cur s)) a /\
+  w_code w' a = w_code (f_w (cur s)) a /\ w_stor w' a = w_stor (f_w (cur s)) a.
+Proof. exact xtouched_nonempty_survives. Qed.
+Print Assumptions C15_x_touched_nonempty_survives.
+
+(* ---- 3x. deleted means gone, whatever was written by whom *)
+Theorem C15_x_destroy_complete : forall e w l w' burns a,
+  run_xtx e w l = TxOk w' burns -> w_acc w a <> None -> ~ (w_acc w' a <> None) ->
+  w_acc w' a = None /\ (forall d, amt (w_bal w' a) d = 0) /\ w_code w' a = 0 /\ w_stor w' a = [].
+Proof. exact xdestroy_complete. Qed.
+Print Assumptions C15_x_destroy_complete.
+
+(* ---- 4x. locked coins of a protected account are, after a successful transaction, still in its balance or were
+         delegated and are counted as delegated vesting (D = growth of that counter, never negative; what bank calls
+         locked shrank by exactly D): no write of any module spends them *)
+Theorem C15_x_locked_unspendable : forall e w l w' burns a ac,
+  run_xtx e w l = TxOk w' burns -> w_acc w a = Some ac -> protected_kind (a_kind ac) (e_now e) = true ->
+  exists ac', w_acc w' a = Some ac' /\ kind_sim (a_kind ac) (a_kind ac') /\ a_num ac' = a_num ac /\
+    forall d, 0 <= delv_of (a_kind ac') d - delv_of (a_kind ac) d /\
+      locked_kind (a_kind ac') (e_now e) d
+        = locked_kind (a_kind ac) (e_now e) d - (delv_of (a_kind ac') d - delv_of (a_kind ac) d) /\
+      Z.min (amt (w_bal w a) d) (locked_kind (a_kind ac) (e_now e) d) - (delv_of (a_kind ac') d - delv_of (a_kind ac) d)
+        <= amt (w_bal w' a) d.
+Proof. intros e w l w' burns a ac H. exact (xlocked_unspendable e w l w' burns H a ac). Qed.
+Print Assumptions C15_x_locked_unspendable.
+
+(* without delegations: the statement of clause 4 as it is, for every account (unprotected ones have nothing locked) *)
+Theorem C15_x_locked_unspendable_no_delegation : forall e w l w' burns a ac d,
+  wf_world w -> Forall not_delegate l -> run_xtx e w l = TxOk w' burns -> w_acc w a = Some ac ->
+  Z.min (amt (w_bal w a) d) (locked_kind (a_kind ac) (e_now e) d) <= amt (w_bal w' a) d.
+Proof. exact xlocked_unspendable_nodelegate. Qed.
+Print Assumptions C15_x_locked_unspendable_no_delegation.
+
+(* one delegation: the counter grows by min(locked, amount) in the delegated denomination and locked shrinks by it *)
+Theorem C15_delegation_moves_locked_into_delegated_vesting : forall sc t d v d',
+  0 < v ->
+  let sc' := track_delegation sc t d v in
+  let D := amt (s_delv sc') d' - amt (s_delv sc) d' in
+  0 <= D /\ locked_sched sc' t d' = locked_sched sc t d' - D /\
+  (d' <> d -> D = 0) /\ (d' = d -> D = Z.min (locked_sched sc t d) v).
+Proof. exact track_delegation_lock. Qed.
+Print Assumptions C15_delegation_moves_locked_into_delegated_vesting.
+
+(* ---- 2x'. contracts survive mixed traces *)
+Theorem C15_x_contract_survives : forall e w l w' burns a ac,
+  xevm_trace e (init_sdb w) l = true -> Forall (xkeeps_nonzero a) l ->
+  run_xtx e w l = TxOk w' burns ->
+  w_acc w a = Some ac -> (a_nonce ac <> 0 \/ w_code w a <> 0) ->
+  (exists s, run_xops e (init_sdb w) l = Ok s /\ mem a (f_sd (cur s)) = true) \/
+  (exists ac', w_acc w' a = Some ac' /\ a_num ac' = a_num ac /\ kind_sim (a_kind ac) (a_kind ac') /\
+               (a_nonce ac' <> 0 \/ w_code w' a <> 0)).
+Proof. exact xcontract_survives. Qed.
+Print Assumptions C15_x_contract_survives.
+
+(* the model of Destroy.v is the special case without foreign writes *)
+Theorem C15_x_conservative : forall e w l, run_xtx e w (map XOp l) = run_tx e w l.
+Proof. exact run_xtx_plain. Qed.
+Print Assumptions C15_x_conservative.
+
+(* ================================================================================================================
+   The raw x/evm store under the per-address maps: keys are byte strings, storage of address a lives under
+   2 ++ a(20 bytes) ++ slot(32 bytes), its code hash under 4 ++ a. *)
+
+(* KVStorePrefixIterator's range [p, PrefixEndBytes(p)) - increment with carry, no upper bound when every byte is
+   0xff - is exactly the set of keys that start with p: for EVERY prefix, whatever bytes it ends in *)
+Theorem C15_prefix_range_is_prefix_set : forall p k,
+  Forall byte_ok p -> Forall byte_ok k -> in_range p (prefix_end p) k = has_prefix p k.
+Proof. exact prefix_range_spec. Qed.
+Print Assumptions C15_prefix_range_is_prefix_set.
+
+(* DestroyAccount on the raw store (DeleteCodeHash; ForEachStorage + SetState(key, nil)) leaves, for EVERY address, no key
+   under its storage prefix and no code-hash key - a set comprehension over the whole raw store *)
+Theorem C15_raw_wipe_complete : forall r a,
+  wf_raw r = true ->
+  filter (fun kv => has_prefix (stor_prefix a) (fst kv)) (raw_wipe r a) = [] /\
+  raw_get (raw_wipe r a) (codehash_key a) = None.
+Proof. exact raw_wipe_complete. Qed.
+Print Assumptions C15_raw_wipe_complete.
+
+(* ... and removes nothing else: not the neighbour's keys, not another prefix *)
+Theorem C15_raw_wipe_only : forall r a kv,
+  wf_raw r = true -> has_prefix (stor_prefix a) (fst kv) = false -> fst kv <> codehash_key a ->
+  (In kv (raw_wipe r a) <-> In kv r).
+Proof. exact raw_wipe_only. Qed.
+Print Assumptions C15_raw_wipe_only.
+
+(* it implements [destroy] of the per-address model, for every address *)
+Theorem C15_raw_destroy_refines : forall e r w a w',
+  wf_raw r = true -> represents r w -> addr_ok a -> destroy e w a = Ok w' -> represents (raw_wipe r a) w'.
+Proof. exact raw_destroy_refines. Qed.
+Print Assumptions C15_raw_destroy_refines.
+
+(* ---- 3r. deleted by a successful transaction => NO key of the address in any raw store that the resulting world is
+         a view of (the driver checks [represents] on the scanned store after every commit) *)
+Theorem C15_destroy_complete_raw : forall e w l w' burns a r,
+  run_xtx e w l = TxOk w' burns -> w_acc w a <> None -> ~ (w_acc w' a <> None) ->
+  wf_raw r = true -> represents r w' -> addr_ok a ->
+  filter (fun kv => has_prefix (stor_prefix a) (fst kv)) r = [] /\ raw_get r (codehash_key a) = None.
+Proof. exact xdestroy_complete_raw. Qed.
+Print Assumptions C15_destroy_complete_raw.
+
+(* the seeded iteration bound (last byte incremented, no carry) is not that set: at an address ending in 0xff the
+   correct iteration visits the slot, the seeded one visits nothing *)
+Theorem C15_nocarry_bound_refuted :
+  let a := 255 in
+  let r := [(stor_prefix a ++ be_bytes 32 1, 42)] in
+  wf_raw r = true /\ filter (fun kv => has_prefix (stor_prefix a) (fst kv)) r = r /\
+  iter_prefix r (stor_prefix a) = r /\ iter_nocarry r (stor_prefix a) = [].
+Proof. exact nocarry_misses. Qed.
+Print Assumptions C15_nocarry_bound_refuted.
+
 (* ------------------------------------------------------------------ non-vacuity *)
 
 Definition empty_world : world := mkWorld (fun _ => None) (fun _ => []) (fun _ => 0) (fun _ => []) 50.
@@ -199,3 +354,42 @@ Proof.
             (split; [intros d; cbn [amt]; repeat (destruct (_ =? d)); lia | exact I])|]).
     intros H. discriminate.
 Qed.
+
+(* ---- foreign writes *)
+(* 9 is a fresh address: touched by a zero-value AddBalance (a self-destruct beneficiary, say), then paid 5 wei by the
+   ERC-20 precompile out of wallet 6: it is kept, with its 5 wei and a new account record *)
+Example C15_ex_touched_then_paid :
+  view (run_xtx ex_env ex_world [XOp (AddBalance 9 0); XSend 6 9 0 5 true]) 9
+  = Some (Some (mkAcc Base 0 50), [(0, 5)], 0, [], []).
+Proof. vm_compute. reflexivity. Qed.
+(* the other direction: contract 5's 100 utwo ... first an address that holds only coins of another denomination:
+   10 holds 30 utwo and no account; it is touched, then a transferFrom moves the 30 utwo away: it is empty at commit time
+   and deleted as a touched empty address (nothing of it is left); wallet 6 received the coins *)
+Definition ex_world2 : world :=
+  mkWorld (w_acc ex_world) (upd (w_bal ex_world) 10 [(1, 30)]) (w_code ex_world) (w_stor ex_world) (w_next ex_world).
+Example C15_ex_funded_then_drained :
+  view (run_xtx ex_env ex_world2 [XOp (AddBalance 10 0); XSend 10 6 1 30 true]) 10 = Some (None, [], 0, [], []) /\
+  view (run_xtx ex_env ex_world2 [XOp (AddBalance 10 0); XSend 10 6 1 30 true]) 6
+  = Some (Some (mkAcc Base 3 6), [(0, 500); (1, 30)], 0, [], []).
+Proof. vm_compute. auto. Qed.
+(* locked coins cannot leave through a precompile either: account 7 (1000 locked + 50 free) can send 50, not 51 -
+   the model refuses where bank refuses ([xagree]) *)
+Example C15_ex_foreign_locked :
+  xagree ex_env (init_sdb ex_world) [XSend 7 6 0 51 false; XSend 7 6 0 50 true] = true /\
+  xagree ex_env (init_sdb ex_world) [XSend 7 6 0 51 true] = false.
+Proof. vm_compute. auto. Qed.
+(* a delegation of 300 by account 7: balance 750, 300 counted as delegated vesting, 700 still locked *)
+Example C15_ex_delegate :
+  match run_xtx ex_env ex_world [XDelegate 7 1 0 300 true] with
+  | TxOk w _ => Some (w_acc w 7, w_bal w 7, locked_kind (kind_at w 7) 2000 0)
+  | TxFailed => None
+  end = Some (Some (mkAcc (delayed 3000 [(0, 1000)] [(0, 300)]) 0 7), [(0, 750)], 700).
+Proof. vm_compute. reflexivity. Qed.
+(* raw store: an address that ends in 0xff ... 0xff (carry through every byte of the address into the prefix byte) *)
+Example C15_ex_raw_wipe_all_ff :
+  let a := 2 ^ 160 - 1 in
+  let r := [(stor_prefix (a - 1) ++ be_bytes 32 7, 1); (stor_prefix a ++ be_bytes 32 0, 2);
+            (stor_prefix a ++ be_bytes 32 (2 ^ 256 - 1), 3); (codehash_key a, 9); ([5; 0], 4)] in
+  wf_raw r = true /\ raw_wipe r a = [(stor_prefix (a - 1) ++ be_bytes 32 7, 1); ([5; 0], 4)] /\
+  abs_stor r a = [(0, 2); (2 ^ 256 - 1, 3)].
+Proof. vm_compute. auto. Qed.
